@@ -15,7 +15,7 @@ def main():
     seed = int(os.environ.get('VERIF_SEED', '0') or 0)
     from mirsym import harness as H
     t0 = time.time()
-    ev = f'/verif/evidence/{a.pid}.json'
+    ev = f'{H.EVID}/{a.pid}.json'
     if os.path.exists(ev) and not a.only:
         os.remove(ev)
     spec = importlib.import_module(f'specs.{a.pid}')
@@ -26,6 +26,7 @@ def main():
     msg = H.ensure_mir()
     print(f'[{a.pid}] {msg}')
     if th: th.join()
+    os.environ['VERIF_TIER'] = tier
     rep = H.Report(a.pid, tier, seed)
     rep.assumptions = list(getattr(spec, 'ASSUMPTIONS', []))
     rep.trusted = list(getattr(spec, 'TRUSTED', [])) + ['rustc nightly MIR (-Zunpretty=mir) of the current /repo tree', 'mirsym library models of fixed::I80F48 / core integer ops', 'z3 4.x/5.x']
